@@ -552,4 +552,14 @@ def pregen(ctx):
             errs.append(str(e))
     except Exception:
         errs.append("unit mrun (Model._run): pregen exception: " + traceback.format_exc()[-800:])
+    # independent unit: Model.run (model.py, the loop over the sequences) -> coq/gen/Gen_mrun2.v (translator vlib/py2coq_mrun2.py).
+    # proofs/Gen_mrun2_eq.v instantiates its `_run` with the generated Model._run of Gen_mrun.v (the unit above, re-translated there) and proves
+    # the loop equal to the fold of run_op over the sequences.  The writer leaves its own stub on rejection; the units above do not depend on it.
+    try:
+        from vlib import py2coq_mrun2
+        e = py2coq_mrun2.pregen()
+        if e:
+            errs.append(str(e))
+    except Exception:
+        errs.append("unit mrun2 (Model.run): pregen exception: " + traceback.format_exc()[-800:])
     return None if not errs else "; ".join(errs)
